@@ -349,4 +349,77 @@ theorem upper_under_left_limit (D : Disc) (α f o t θ₀ : Rat) (hθ : θ₀ < 
 
 
 end leftlimit
+
+/-! ### input guards (`_check_firm_inputs`, `_check_risk_matrix_score_inputs`) vs the documented domains -/
+section guards
+
+theorem dec_le_not_lt (a b : Rat) : decide (a ≤ b) = !decide (b < a) := by
+  by_cases h : b < a
+  · simp [h, not_le.mpr h]
+  · simp [h, not_lt.mp h]
+
+theorem dec_lt_not_le (a b : Rat) : decide (a < b) = !decide (b ≤ a) := by
+  by_cases h : b ≤ a
+  · simp [h, not_lt.mpr h]
+  · simp [h, not_le.mp h]
+
+theorem alpha_guard (a : Fl) (ha : a ≠ nan) : (Fl.le a (fin 0) || Fl.ge a (fin 1)) = !alphaOk a := by
+  cases a with
+  | fin q =>
+    simp only [Fl.le, Fl.ge, alphaOk]
+    rw [dec_le_not_lt q 0, dec_le_not_lt 1 q, Bool.not_and]
+  | pinf => simp [Fl.le, Fl.ge, alphaOk]
+  | ninf => simp [Fl.le, Fl.ge, alphaOk]
+  | nan => exact absurd rfl ha
+
+theorem weight_guard (w : Fl) : Fl.le w (fin 0) = !weightOk w := by
+  cases w <;> simp [Fl.le, weightOk, dec_le_not_lt]
+
+theorem disc_guard (d : Fl) (hd : d ≠ nan) : Fl.lt d (fin 0) = !discOk d := by
+  cases d <;> simp_all [Fl.lt, discOk, dec_lt_not_le]
+
+theorem any_not_all {α : Type} (l : List α) (p q : α → Bool) (h : ∀ x, p x = !q x) : l.any p = !l.all q := by
+  induction l with
+  | nil => simp
+  | cons x xs ih => simp [List.any_cons, List.all_cons, ih, h x, Bool.not_and]
+
+
+theorem any_not_all_mem {α : Type} (l : List α) (p q : α → Bool) (h : ∀ x ∈ l, p x = !q x) : l.any p = !l.all q := by
+  induction l with
+  | nil => simp
+  | cons x xs ih =>
+    simp only [List.any_cons, List.all_cons, Bool.not_and]
+    rw [h x (by simp), ih (fun y hy => h y (by simp [hy]))]
+
+theorem any_or_any {α : Type} (l : List α) (p q : α → Bool) : (l.any p || l.any q) = l.any (fun x => p x || q x) := by
+  induction l with
+  | nil => simp
+  | cons x xs ih =>
+    simp only [List.any_cons, ← ih]
+    cases p x <;> cases q x <;> simp
+
+theorem valid_any (l : List Fl) (p : Fl → Bool) : (valid l).any p = l.any (fun x => Fl.notNan x && p x) := by
+  unfold valid
+  induction l with
+  | nil => simp
+  | cons x xs ih =>
+    simp only [List.filter_cons, List.any_cons]
+    cases hx : Fl.notNan x <;> simp [ih]
+
+theorem prob_guard (x : Fl) :
+    ((Fl.notNan x && Fl.gt x (fin 1)) || (Fl.notNan x && Fl.lt x (fin 0))) = !probOk x := by
+  cases x <;> simp [Fl.notNan, Fl.isNan, Fl.gt, Fl.lt, probOk, dec_lt_not_le, Bool.or_comm]
+
+theorem binary_guard (x : Fl) :
+    (Fl.notNan x && !(Fl.beq x (fin 0) || Fl.beq x (fin 1))) = !binaryOk x := by
+  cases x <;> simp [Fl.notNan, Fl.isNan, Fl.beq, binaryOk]
+
+theorem thr_guard (x : Fl) (hx : x ≠ nan) : (Fl.le x (fin 0) || Fl.ge x (fin 1)) = !probThresholdOk x := by
+  cases x with
+  | fin q => simp only [Fl.le, Fl.ge, probThresholdOk]; rw [dec_le_not_lt q 0, dec_le_not_lt 1 q, Bool.not_and]
+  | pinf => simp [Fl.le, Fl.ge, probThresholdOk]
+  | ninf => simp [Fl.le, Fl.ge, probThresholdOk]
+  | nan => exact absurd rfl hx
+
+end guards
 end SV.Lemmas.Firm
